@@ -34,6 +34,8 @@ enum Event {
     Submit(String),
     Break,
     Tick,
+    /// (page_js only) a line submitted while the program file is still being downloaded
+    EarlySubmit(String),
 }
 
 /// facts read from main.ts so that the model follows the source
@@ -276,6 +278,7 @@ impl Page {
             return;
         }
         match ev {
+            Event::EarlySubmit(_) => {} // the transliterated page registers its handlers after the download
             Event::Load(text) => {
                 // new Interpreter(JsInterpreter.new()): randomize(Date.now())
                 self.load(text);
@@ -502,7 +505,9 @@ fn run_page_js(scenarios: &[(u64, Option<String>, Vec<Event>)], facts: &PageFact
     let _ = std::fs::create_dir_all(&dir);
     let file = format!("{}/c19-scenarios-{}-{}.json", dir, std::process::id(), scenarios.first().map(|s| s.0).unwrap_or(0));
     let js: Vec<serde_json::Value> = scenarios.iter().enumerate().map(|(k, (seed, program, events))| {
-        json!({"id": k, "seed": seed.to_string(), "program": program, "events": events.iter().filter_map(|e| match e {
+        json!({"id": k, "seed": seed.to_string(), "program": program,
+            "early": events.iter().filter_map(|e| match e { Event::EarlySubmit(s) => Some(json!({"t": "submit", "text": s})), _ => None }).collect::<Vec<_>>(),
+            "events": events.iter().filter_map(|e| match e {
             Event::Tick => Some(json!({"t": "tick"})),
             Event::Break => Some(json!({"t": "break"})),
             Event::Submit(s) => Some(json!({"t": "submit", "text": s})),
@@ -590,6 +595,25 @@ fn program_text(rng: &mut Rng) -> String {
     lines.join(if rng.chance(1, 8) { "\r\n" } else { "\n" })
 }
 
+/// type in a program of 250-420 lines, LIST it, run it for a while, NEW: calls that produce hundreds of records
+fn long_listing(rng: &mut Rng, events: &mut Vec<Event>) {
+    let n = 250 + rng.usize(170);
+    for k in 0..n {
+        events.push(Event::Submit(format!("{} PRINT {}", k + 1, k)));
+    }
+    events.push(Event::Submit("LIST".into()));
+    events.push(Event::Tick);
+    events.push(Event::Submit("PRINT \"after the listing\"".into()));
+    events.push(Event::Submit("RUN".into()));
+    for _ in 0..rng.usize(40) {
+        events.push(Event::Tick);
+    }
+    events.push(Event::Break);
+    events.push(Event::Submit("NEW".into()));
+    events.push(Event::Submit("LIST".into()));
+    events.push(Event::Submit("PRINT 1".into()));
+}
+
 fn submit_text(rng: &mut Rng, g_lines: &[String]) -> String {
     match rng.below(14) {
         0 => "RUN".into(),
@@ -638,6 +662,9 @@ fn run_case(ctx: &Ctx, index: u64, rep: &mut Report) {
     } else {
         events.push(Event::Start);
     }
+    if rng.chance(1, 12) {
+        long_listing(&mut rng, &mut events);
+    }
     for _ in 0..n {
         events.push(match rng.below(10) {
             0..=5 => Event::Tick,
@@ -682,6 +709,7 @@ fn run_case(ctx: &Ctx, index: u64, rep: &mut Report) {
             Event::Submit(s) => json!({"submit": s}),
             Event::Break => json!("break"),
             Event::Tick => json!("tick"),
+            Event::EarlySubmit(s) => json!({"submit-during-download": s}),
         }).collect::<Vec<_>>()})
     };
     if let Some((sig, msg)) = page.problems.first().cloned() {
@@ -707,6 +735,15 @@ fn run_case_page_js(ctx: &Ctx, index: u64, rep: &mut Report, facts: &PageFacts) 
         let program = if rng.coin() { Some(program_text(&mut rng)) } else { None };
         let n = 5 + rng.usize(150);
         let mut events = vec![];
+        if program.is_some() && rng.chance(1, 3) {
+            // the user types while the program file is still being fetched
+            for _ in 0..1 + rng.usize(2) {
+                events.push(Event::EarlySubmit(rng.s(&["INPUT Z", "FOR I = 1 TO 1000 : NEXT I", "PRINT 1", "10 X = 1", "RUN", "PRINT 1/0", "GOTO 10"]).to_string()));
+            }
+        }
+        if rng.chance(1, 12) {
+            long_listing(&mut rng, &mut events);
+        }
         for _ in 0..n {
             events.push(match rng.below(10) {
                 0..=5 => Event::Tick,
